@@ -110,6 +110,10 @@ def parse_frb(fdata: bytes, header: Header, context: Context, script: Script):
     logging.debug("====== parse LSCR func record block (code)===============")
     lsrc_bit_order = '>'
     idx = header.frb_offset
+    # Bytes of bytecode and name tables declared by the records read so far:
+    # the regions of different handlers do not overlap, so together they fit
+    # in the file
+    declared = 0
     for i in range(0, header.frb_nrecords):
 
         logging.debug("Function Record Block: %i (starts in: %x)", i, idx) 
@@ -187,6 +191,14 @@ def parse_frb(fdata: bytes, header: Header, context: Context, script: Script):
 
 
         logging.debug("Function Record Block: %i (ends in: %x)", i, idx) 
+
+        declared += max(0, bc_length) + 2 * (max(0, bc_nlocal)
+                                             + max(0, bc_narg)
+                                             + max(0, count_c))
+        if declared > len(fdata):
+            logging.error("function records declare %s bytes, file has %s",
+                          declared, len(fdata))
+            raise ValueError("Function records larger than the file!")
 
         fname = 'noname'
         if namelist_index >= 0 and namelist_index < len(context.name_list):
